@@ -506,6 +506,9 @@ fn run_case(out: &mut Out, seed: u64, c: u64) {
         texts[2],
         errs
     );
+    // ASCII only: Out::case truncates the sample text at a byte offset
+    let human: String =
+        human.chars().map(|c| if c.is_ascii() { c.to_string() } else { format!("\\u{{{:x}}}", c as u32) }).collect();
     let g_back = |b: &Option<Vec<MT>>| g_opt(b.as_ref().map(|v| g_triples(v)));
     let gal = format!(
         "(Build_case {} {} {} {} {} {} {} {} {} {} {})",
@@ -589,7 +592,7 @@ fn main() {
                 candidate IRIs, labels and language tags (valid and invalid) to the constructors. Non-trivial = \
                 non-empty set; distinct by case text."
         .to_string();
-    let n = if args.thorough { 24000 } else { 640 };
+    let n = if args.thorough { 12000 } else { 640 };
     for c in 0..n {
         run_case(&mut out, args.seed, c);
     }
